@@ -114,6 +114,7 @@ RESP_KINDS = {
     "none": (None, [("", b"", None)]),
     "json-empty-schema": (_j({}), [_jb({"a": 1}), _jb([1, 2])]),
     "json-model": (_j(R("Item")), [_jb(b) for b in ITEM_BODIES]),
+    "json-other": (_j(R("Other")), [_jb(b) for b in OTHER_BODIES]),
     "json-array-model": (_j({"type": "array", "items": R("Item")}), [_jb(ITEM_BODIES), _jb([])]),
     "json-integer": (_j({"type": "integer"}), [_jb(5)]),
     "json-string": (_j({"type": "string"}), [_jb("s")]),
@@ -130,6 +131,11 @@ RESP_KINDS = {
     "image": ({"image/png": {"schema": {"type": "string", "format": "binary"}}}, [("image/png", b"\x89PNG", {"$bytes": "iVBORw=="})]),
     "json+text": ({"application/json": {"schema": R("Item")}, "text/plain": {"schema": {"type": "string"}}},
                   [_jb(ITEM_BODIES[0]), ("text/plain; charset=utf-8", b"plain", "plain")]),
+    "text+csv+json": ({"text/plain": {"schema": {"type": "string"}}, "text/csv": {"schema": {"type": "string"}}, "application/json": {"schema": R("Item")}},
+                      [("text/plain; charset=utf-8", b"plain", "plain"), ("text/csv; charset=utf-8", b"a,b", "a,b"), _jb(ITEM_BODIES[0])]),
+    "pdf+png+json": ({"application/pdf": {"schema": {"type": "string", "format": "binary"}}, "image/png": {"schema": {"type": "string", "format": "binary"}},
+                      "application/json": {"schema": R("Item")}},
+                     [("application/pdf", b"%PDF\xff", {"$bytes": "JVBERv8="}), ("image/png", b"\x89PNG", {"$bytes": "iVBORw=="}), _jb(ITEM_BODIES[0])]),
 }
 STREAM_KINDS = {
     "event-stream": {"text/event-stream": {"schema": R("Item")}},
